@@ -43,7 +43,7 @@ func exclusiveAnchorsOf(c *Ctx) *exclusiveAnchors {
 		a.runner.undecided("PATH", "successor item", "no successor exclusiveItem is allocated by the runner")
 		return nil
 	}
-	a.itemCell = an.CellByName(a.call.fn, "item")
+	a.itemCell = nil
 	rv := closuresOf(a.runner.fn, func(f *ssa.Function) bool { return len(P.CallsTo(f, "(*sync.Once).Do")) > 0 })
 	if len(rv) == 1 {
 		a.resolve = &fq{c: c, fn: rv[0], name: an.FuncName(rv[0])}
@@ -361,8 +361,10 @@ func exclusiveC10(c *Ctx) {
 			if !ok || (b.Op != token.EQL && b.Op != token.NEQ) {
 				return false
 			}
-			ld, isL := isLoad(b.X)
-			return isL && isSuccField(ld.X, a.succ, "exclusiveItem.count") && isZero(b.Y)
+			return either(b, func(v ssa.Value) bool {
+				ld, isL := isLoad(v)
+				return isL && isSuccField(ld.X, a.succ, "exclusiveItem.count")
+			}, isZero)
 		})
 		okd := len(ifz) == 1
 		if okd {
